@@ -252,24 +252,67 @@ static void emitSplder(int m, int n, int ider, double t, const Vector& x, const 
     vh::D(tag);
 }
 
-static void splineCase(vh::Rng& g, bool big) {
+// Exact d-th derivative at t of the polynomial through (nodes[j], vals[j]) (Newton form, shifted to a Taylor expansion at t, in
+// long double).  *cond receives sum_j |l_j^(d)(t)| |vals[j]|, the natural scale of the rounding error of the result.
+static double polyDerivAt(const std::vector<double>& nodes, const std::vector<double>& vals, double t, int d, double* cond) {
+    const int n = (int)nodes.size();
+    auto taylor = [&](const std::vector<long double>& v) {
+        std::vector<long double> a(v);                       // divided differences
+        for (int k = 1; k < n; ++k) for (int j = n - 1; j >= k; --j) a[j] = (a[j] - a[j - 1]) / ((long double)nodes[j] - nodes[j - k]);
+        std::vector<long double> p(n, 0.0L); p[0] = a[n - 1];   // p(u), u = x - t
+        for (int k = n - 2; k >= 0; --k) {                  // p = p*(u + (t - x_k)) + a_k
+            long double s = (long double)t - nodes[k];
+            for (int i = n - 1; i >= 1; --i) p[i] = p[i] * s + p[i - 1];
+            p[0] = p[0] * s + a[k];
+        }
+        return p;
+    };
+    std::vector<long double> v(vals.begin(), vals.end());
+    long double fact = 1; for (int i = 2; i <= d; ++i) fact *= i;
+    double r = d < n ? (double)(taylor(v)[d] * fact) : 0.0;
+    if (cond) {
+        long double c = 0;
+        for (int j = 0; j < n; ++j) { std::vector<long double> e(n, 0.0L); e[j] = 1; c += (d < n ? fabsl(taylor(e)[d] * fact) : 0.0L) * fabsl(v[j]); }
+        *cond = (double)c;
+    }
+    return r;
+}
+static std::vector<double> insideNodes(double a, double b, int count) {      // `count` points strictly inside (a,b)
+    std::vector<double> v; for (int j = 0; j < count; ++j) v.push_back(a + (b - a) * (j + 0.5) / count); return v;
+}
+
+static int g_splineJudged = 0, g_bicubicJudged = 0, g_funcJudged = 0;
+
+static void splineCase(vh::Rng& g, bool big, int forceMode = -1) {
     int degree = 1 + 2 * g.below(4);                  // 1,3,5,7
     int m = (degree + 1) / 2;
-    int n = 2 * m + g.below(big ? 40 : 14);
+    // fit mode: 0 interpolating (p = 0), 1 fixed smoothing parameter p > 0, 2 GCV, 3 known error variance, 4 known residual dof
+    int mode = forceMode >= 0 ? forceMode : (g.below(2) == 0 ? 0 : 1 + g.below(4));
+    static const char* modeName[] = {"interp", "smooth", "gcv", "errvar", "dof"};
+    int n = 2 * m + (mode >= 2 ? 2 : 0) + g.below(big ? 40 : 14);
     bool uniform = g.below(4) == 0;
     Vector x(n), y(n);
     double xx = g.signedMag(0.1, 5);
     for (int i = 0; i < n; ++i) { x[i] = xx; xx += uniform ? 0.5 : g.range(0.2, 1.0); }
-    for (int i = 0; i < n; ++i) y[i] = g.signedMag(0.1, 3);
+    double wv = g.range(0.3, 2), noise = mode == 0 ? 0 : g.range(0.01, 0.2);
+    bool wiggly = mode == 0 || g.coin();
+    for (int i = 0; i < n; ++i) y[i] = wiggly ? g.signedMag(0.1, 3) : 2 * std::sin(wv * x[i]) + noise * g.range(-1, 1);
     bool vec3 = g.below(4) == 0;
-    std::string tag = "spline.deg" + std::to_string(degree) + (vec3 ? ".vec3" : ".real");
-    std::string key = "spline.deg" + std::to_string(degree);
+    std::string tag = "spline.deg" + std::to_string(degree) + "." + modeName[mode] + (vec3 ? ".vec3" : ".real");
+    std::string key = std::string("spline.") + modeName[mode] + ".deg" + std::to_string(degree);
     Vector_<Vec3> y3(n);
-    for (int i = 0; i < n; ++i) y3[i] = Vec3(y[i], g.signedMag(0.1, 3), g.signedMag(0.1, 3));
-    // interpolating spline: smoothing parameter 0
+    for (int i = 0; i < n; ++i) y3[i] = Vec3(y[i], wiggly ? g.signedMag(0.1, 3) : std::cos(wv * x[i]) + noise * g.range(-1, 1), g.signedMag(0.1, 3));
     Spline_<Real> sp; Spline_<Vec3> sp3;
-    if (vec3) sp3 = SplineFitter<Vec3>::fitForSmoothingParameter(degree, x, y3, 0).getSpline();
-    else sp = SplineFitter<Real>::fitForSmoothingParameter(degree, x, y, 0).getSpline();
+    double par = mode == 1 ? std::exp(g.range(std::log(1e-4), std::log(10.0))) : mode == 3 ? noise * noise / 3 + 1e-6 : mode == 4 ? g.range(0.5, n - m - 0.5) : 0;
+    if (vec3) {
+        SplineFitter<Vec3> f = mode <= 1 ? SplineFitter<Vec3>::fitForSmoothingParameter(degree, x, y3, par) : mode == 2 ? SplineFitter<Vec3>::fitFromGCV(degree, x, y3)
+                             : mode == 3 ? SplineFitter<Vec3>::fitFromErrorVariance(degree, x, y3, par) : SplineFitter<Vec3>::fitFromDOF(degree, x, y3, par);
+        sp3 = f.getSpline();
+    } else {
+        SplineFitter<Real> f = mode <= 1 ? SplineFitter<Real>::fitForSmoothingParameter(degree, x, y, par) : mode == 2 ? SplineFitter<Real>::fitFromGCV(degree, x, y)
+                             : mode == 3 ? SplineFitter<Real>::fitFromErrorVariance(degree, x, y, par) : SplineFitter<Real>::fitFromDOF(degree, x, y, par);
+        sp = f.getSpline();
+    }
     int ncomp = vec3 ? 3 : 1;
     auto val = [&](int comp, int order, double t) -> double {
         if (vec3) return order ? sp3.calcDerivative(order, t)[comp] : sp3.calcValue(t)[comp];
@@ -277,64 +320,147 @@ static void splineCase(vh::Rng& g, bool big) {
         return (order & 1) ? sp.calcDerivative(order, t) : sp.calcDerivative(comps(order), Vector(1, t));   // both signatures
     };
     double ysc = 0; for (int i = 0; i < n; ++i) for (int cmp = 0; cmp < ncomp; ++cmp) ysc = std::max(ysc, std::fabs(vec3 ? y3[i][cmp] : y[i]));
-    // correspondence records: a few evaluation points, every derivative order 0..2m
+    // correspondence records: a few evaluation points (knots, interior, outside the knot range), every derivative order 0..2m
     std::vector<std::vector<double> > coef(ncomp, std::vector<double>(n));
+    bool finite = true;
     for (int cmp = 0; cmp < ncomp; ++cmp)
-        for (int i = 0; i < n; ++i) coef[cmp][i] = vec3 ? sp3.getControlPointValues()[i][cmp] : sp.getControlPointValues()[i];
+        for (int i = 0; i < n; ++i) { coef[cmp][i] = vec3 ? sp3.getControlPointValues()[i][cmp] : sp.getControlPointValues()[i]; finite = finite && std::isfinite(coef[cmp][i]); }
     int npts = 3;
     for (int r = 0; r < npts; ++r) {
         int i = g.below(n - 1);
-        int kind = g.below(5);
-        double t = (kind == 0) ? x[i] : (kind == 1) ? x[0] : (kind == 2) ? x[n - 1] : x[i] + (x[i + 1] - x[i]) * g.range(0.01, 0.99);
+        int kind = g.below(7);
+        double t = (kind == 0) ? x[i] : (kind == 1) ? x[0] : (kind == 2) ? x[n - 1] : (kind == 5) ? x[0] - g.range(0.01, 2) : (kind == 6) ? x[n - 1] + g.range(0.01, 2)
+                 : x[i] + (x[i + 1] - x[i]) * g.range(0.01, 0.99);
         int cmp = g.below(ncomp);
         for (int ider = 0; ider <= 2 * m; ++ider)
-            emitSplder(m, n, ider, t, x, coef[cmp], val(cmp, ider, t), tag + (kind <= 2 ? ".knot" : ".interior"));
+            emitSplder(m, n, ider, t, x, coef[cmp], val(cmp, ider, t), tag + (kind <= 2 ? ".knot" : kind >= 5 ? ".outside" : ".interior"));
     }
     // ---- property predicates, attached to one more record (value at the first knot)
     emitSplder(m, n, 0, x[0], x, coef[0], val(0, 0, x[0]), tag + ".pred");
-    // (1) passes through every control point
-    double worst = 0;
-    for (int i = 0; i < n; ++i) for (int cmp = 0; cmp < ncomp; ++cmp)
-        worst = std::max(worst, std::fabs(val(cmp, 0, x[i]) - (vec3 ? y3[i][cmp] : y[i])));
-    vh::P("spline_through_points", key + ".interp", worst / ysc, 1e-9);
-    // (2) calcDerivative(k+1) is the derivative of calcDerivative(k) (k = 0 is calcValue): central differences
-    //     strictly inside an interval, where the spline is a polynomial of degree `degree`
-    //     (truncation term h^2 S^(k+3)/6 is measured with the implementation's own higher derivative)
-    double worstFd = 0;
-    for (int r = 0; r < 4; ++r) {
-        int i = g.below(n - 1); double dx = x[i + 1] - x[i];
-        double t = x[i] + dx * g.range(0.1, 0.9), h = 1e-3 * dx;
-        for (int cmp = 0; cmp < ncomp; ++cmp)
-            for (int k = 0; k < degree; ++k) {
-                double fd = (val(cmp, k, t + h) - val(cmp, k, t - h)) / (2 * h);
-                double d1 = val(cmp, k + 1, t);
-                double d3 = (k + 3 <= degree) ? std::max(std::fabs(val(cmp, k + 3, t - h)), std::fabs(val(cmp, k + 3, t + h))) : 0;
-                double d5 = (k + 5 <= degree) ? std::fabs(val(cmp, k + 5, t)) : 0;
-                double sc = std::max(std::fabs(d1), std::max(std::fabs(val(cmp, k, t)) / dx, 1e-300));
-                double trunc = h * h * d3 / 6 * 1.5 + h * h * h * h * d5 / 120 * 2;
-                worstFd = std::max(worstFd, (std::fabs(fd - d1) - trunc) / sc);
-            }
+    vh::P("spline_fit_finite", key + ".finite", finite ? 0 : 1, 0);
+    if (!finite) return;
+    ++g_splineJudged;
+    // (1) an interpolating spline passes through every control point
+    if (mode == 0) {
+        double worst = 0;
+        for (int i = 0; i < n; ++i) for (int cmp = 0; cmp < ncomp; ++cmp)
+            worst = std::max(worst, std::fabs(val(cmp, 0, x[i]) - (vec3 ? y3[i][cmp] : y[i])));
+        vh::P("spline_through_points", key + ".interp", worst / ysc, 1e-9);
     }
-    vh::P("spline_deriv_fd", key + ".fd", worstFd, 1e-7);
-    // (3) continuity of value and derivatives up to degree-1 across interior knots: the jump between the two
-    //     sides at distance delta is bounded by 2 delta max|S^(k+1)| (S^(k+1) exists on both sides)
+    // (2) "reports the true derivatives of its value", with no allowance taken from the implementation's own derivatives
+    //     (round 2): on one knot interval - or in an end region - the order-k output is sampled at degree+1 interior nodes; the
+    //     polynomial through those samples is differentiated exactly and compared with the reported derivative, both as a chain
+    //     (order k -> k+1) and from the value alone (order 0 -> d).  One more node checks the samples lie on a polynomial of
+    //     that degree at all.  Errors are relative to cond = sum |l_j^(d)(t)| |sample_j| (the rounding scale of the reference).
+    double worstChain = 0, worstFromValue = 0, worstPoly = 0;
+    for (int r = 0; r < 4; ++r) {
+        int region = g.below(8);     // 0: left of the first knot, 1: right of the last, else an interior interval
+        double a, b;
+        if (region == 0) { a = x[0] - g.range(0.3, 1.5); b = x[0]; } else if (region == 1) { a = x[n - 1]; b = x[n - 1] + g.range(0.3, 1.5); }
+        else { int i = g.below(n - 1); a = x[i]; b = x[i + 1]; }
+        std::vector<double> nodes = insideNodes(a, b, degree + 1);
+        double t = a + (b - a) * g.range(0.05, 0.95), extra = a + (b - a) * g.range(0.02, 0.98);
+        for (int cmp = 0; cmp < ncomp; ++cmp) {
+            std::vector<std::vector<double> > samp(degree + 1, std::vector<double>(nodes.size()));
+            for (int k = 0; k <= degree; ++k) for (size_t j = 0; j < nodes.size(); ++j) samp[k][j] = val(cmp, k, nodes[j]);
+            for (int k = 0; k < degree; ++k) {
+                double cond, ref = polyDerivAt(nodes, samp[k], t, 1, &cond);
+                worstChain = std::max(worstChain, std::fabs(ref - val(cmp, k + 1, t)) / std::max(cond, 1e-300));
+                double c0, r0 = polyDerivAt(nodes, samp[k], extra, 0, &c0);
+                worstPoly = std::max(worstPoly, std::fabs(r0 - val(cmp, k, extra)) / std::max(c0, 1e-300));
+            }
+            for (int d = 1; d <= degree; ++d) {
+                double cond, ref = polyDerivAt(nodes, samp[0], t, d, &cond);
+                worstFromValue = std::max(worstFromValue, std::fabs(ref - val(cmp, d, t)) / std::max(cond, 1e-300));
+            }
+        }
+    }
+    vh::P("spline_deriv_chain", key + ".chain", worstChain, 1e-10);
+    vh::P("spline_deriv_of_value", key + ".fromvalue", worstFromValue, 1e-10);
+    vh::P("spline_piecewise_polynomial", key + ".poly", worstPoly, 1e-10);
+    // (3) continuity of value and derivatives up to degree-1 across interior knots: the one-sided limits are obtained by
+    //     extrapolating the polynomial through degree+1 samples strictly inside the interval on either side (exact for a
+    //     piecewise polynomial; no Lipschitz allowance)
     double worstJump = 0;
     for (int i = 1; i + 1 < n; ++i) {
-        double dl = x[i] - x[i - 1], dr = x[i + 1] - x[i], delta = 1e-6 * std::min(dl, dr);
+        std::vector<double> nl = insideNodes(x[i - 1], x[i], degree + 1), nr = insideNodes(x[i], x[i + 1], degree + 1);
         for (int cmp = 0; cmp < ncomp; ++cmp)
             for (int k = 0; k <= degree - 1; ++k) {
-                double a = val(cmp, k, x[i] - delta), b = val(cmp, k, x[i] + delta), at = val(cmp, k, x[i]);
-                double L = std::max(std::fabs(val(cmp, k + 1, x[i] - delta)), std::fabs(val(cmp, k + 1, x[i] + delta)));
-                double sc = std::max(std::max(std::fabs(a), std::fabs(b)), std::max(L * std::min(dl, dr), 1e-300));
-                double jump = std::max(std::fabs(a - b) - 2.2 * delta * L, std::max(std::fabs(a - at), std::fabs(b - at)) - 1.1 * delta * L);
-                worstJump = std::max(worstJump, jump / sc);
+                std::vector<double> vl, vr; for (double u : nl) vl.push_back(val(cmp, k, u)); for (double u : nr) vr.push_back(val(cmp, k, u));
+                double cl, cr, el = polyDerivAt(nl, vl, x[i], 0, &cl), er = polyDerivAt(nr, vr, x[i], 0, &cr), at = val(cmp, k, x[i]);
+                double sc = std::max(cl + cr, 1e-300);
+                worstJump = std::max(worstJump, std::max(std::fabs(el - er), std::max(std::fabs(at - el), std::fabs(at - er))) / sc);
             }
     }
-    vh::P("spline_continuity", key + ".cont", worstJump, 1e-9);
+    vh::P("spline_continuity", key + ".cont", worstJump, 1e-10);
     // (4) derivatives of order > degree vanish
     double hi = 0;
     for (int cmp = 0; cmp < ncomp; ++cmp) hi = std::max(hi, std::fabs(val(cmp, degree + 1, x[0] + 0.3 * (x[1] - x[0]))));
     vh::P("spline_high_order_zero", key + ".high", hi, 0.0);
+}
+
+// ------------------------------------------------------------------ bicubic surface / function (two arguments, mixed partials)
+// P-only (no model): BicubicFunction is the library's Function with a genuinely multi-argument derivative.
+static void bicubicCase(vh::Rng& g) {
+    int nx = 4 + g.below(4), ny = 4 + g.below(4);
+    bool regular = g.below(3) == 0, smooth = g.below(3) == 0;
+    Vector x(nx), y(ny); Matrix f(nx, ny);
+    double x0 = g.signedMag(0.1, 3), y0 = g.signedMag(0.1, 3), hx = g.range(0.3, 1), hy = g.range(0.3, 1);
+    for (int i = 0; i < nx; ++i) x[i] = regular ? x0 + i * hx : i == 0 ? x0 : x[i - 1] + g.range(0.3, 1.0);   // regular: the grid the constructor itself builds
+    for (int j = 0; j < ny; ++j) y[j] = regular ? y0 + j * hy : j == 0 ? y0 : y[j - 1] + g.range(0.3, 1.0);
+    double a = g.range(0.3, 1.5), b = g.range(0.3, 1.5), fsc = 0;
+    for (int i = 0; i < nx; ++i) for (int j = 0; j < ny; ++j) { f(i, j) = std::sin(a * x[i]) * std::cos(b * y[j]) + 0.3 * g.range(-1, 1); fsc = std::max(fsc, std::fabs(f(i, j))); }
+    double smoothness = smooth ? g.range(0.05, 0.8) : 0;
+    BicubicSurface surf = regular ? BicubicSurface(Vec2(x0, y0), Vec2(hx, hy), f, smoothness) : BicubicSurface(x, y, f, smoothness);
+    BicubicFunction fn(surf);
+    std::string tag = std::string("bicubic.") + (regular ? "regular" : "irregular") + (smooth ? ".smooth" : ".interp");
+    std::string key = std::string("bicubic.") + (smooth ? "smooth" : "interp");
+    vh::I("ponly").d(1).emit(); vh::O("ponly").d(1).emit(); vh::D(tag); ++g_bicubicJudged;
+    auto F = [&](std::initializer_list<int> c, double X, double Y) -> double {
+        Vector xy(2); xy[0] = X; xy[1] = Y; Array_<int> cc; for (int v : c) cc.push_back(v);
+        return cc.empty() ? fn.calcValue(xy) : fn.calcDerivative(cc, xy);
+    };
+    if (!smooth) {
+        double worst = 0; for (int i = 0; i < nx; ++i) for (int j = 0; j < ny; ++j) worst = std::max(worst, std::fabs(F({}, x[i], y[j]) - f(i, j)));
+        vh::P("bicubic_through_points", key + ".interp", worst / fsc, 1e-11);
+    }
+    // inside one patch the surface is a polynomial of degree <= 3 in each argument: every partial derivative up to total order 3
+    // is compared with the exact derivative of the tensor-product polynomial through 4x4 *values* in the patch
+    int pi = g.below(nx - 1), pj = g.below(ny - 1);
+    std::vector<double> xn = insideNodes(x[pi], x[pi + 1], 4), yn = insideNodes(y[pj], y[pj + 1], 4);
+    double X = x[pi] + (x[pi + 1] - x[pi]) * g.range(0.05, 0.95), Y = y[pj] + (y[pj + 1] - y[pj]) * g.range(0.05, 0.95);
+    auto tensorDeriv = [&](int p, int q, double* cond) {
+        std::vector<double> col(4), ccol(4);
+        for (int i = 0; i < 4; ++i) { std::vector<double> row(4); for (int j = 0; j < 4; ++j) row[j] = F({}, xn[i], yn[j]); col[i] = polyDerivAt(yn, row, Y, q, &ccol[i]); }
+        double c1, r = polyDerivAt(xn, col, X, p, &c1), c2; polyDerivAt(xn, ccol, X, p, &c2);
+        *cond = c1 + c2; return r;
+    };
+    static const std::initializer_list<int> lists[] = {{0}, {1}, {0, 0}, {0, 1}, {1, 0}, {1, 1}, {0, 0, 0}, {0, 0, 1}, {0, 1, 0}, {1, 0, 0}, {0, 1, 1}, {1, 0, 1}, {1, 1, 0}, {1, 1, 1}};
+    double worstD = 0, worstSym = 0;
+    for (auto& L : lists) {
+        int p = 0, q = 0; for (int v : L) (v == 0 ? p : q)++;
+        double cond, ref = tensorDeriv(p, q, &cond), got = F(L, X, Y);
+        worstD = std::max(worstD, std::fabs(ref - got) / std::max(cond, 1e-300));
+        std::vector<int> sorted(L); std::sort(sorted.begin(), sorted.end());
+        Array_<int> sc; for (int v : sorted) sc.push_back(v); Vector xy(2); xy[0] = X; xy[1] = Y;
+        worstSym = std::max(worstSym, std::fabs(fn.calcDerivative(sc, xy) - got) / std::max(cond, 1e-300));
+    }
+    vh::P("bicubic_deriv_of_value", key + ".deriv", worstD, 1e-10);
+    vh::P("bicubic_mixed_partials_symmetric", key + ".symmetric", worstSym, 1e-14);
+    // the header promises continuity up to the second derivative: one-sided limits across an interior grid line x = x[i]
+    if (nx > 2) {
+        int i = 1 + g.below(nx - 2);
+        std::vector<double> nl = insideNodes(x[i - 1], x[i], 4), nr = insideNodes(x[i], x[i + 1], 4);
+        double worst = 0;
+        static const std::initializer_list<int> cl[] = {{}, {0}, {1}, {0, 0}, {0, 1}, {1, 1}};
+        for (auto& L : cl) {
+            std::vector<double> vl, vr; for (double u : nl) vl.push_back(F(L, u, Y)); for (double u : nr) vr.push_back(F(L, u, Y));
+            double c1, c2, el = polyDerivAt(nl, vl, x[i], 0, &c1), er = polyDerivAt(nr, vr, x[i], 0, &c2), at = F(L, x[i], Y);
+            worst = std::max(worst, std::max(std::fabs(el - er), std::max(std::fabs(at - el), std::fabs(at - er))) / std::max(c1 + c2, 1e-300));
+        }
+        vh::P("bicubic_C2_across_gridline", key + ".cont", worst, 1e-10);
+    }
+    vh::P("bicubic_order4_zero", key + ".high", std::fabs(F({0, 0, 1, 1}, X, Y)) + std::fabs(F({0, 0, 0, 0}, X, Y)), 0.0);   // documented: 4 or more entries give 0
 }
 
 // ------------------------------------------------------------------ replay
@@ -393,6 +519,7 @@ int main(int argc, char** argv) {
     stepUpCase(0.0, "end", nullptr); stepUpCase(1.0, "end", nullptr); stepUpCase(0.5, "mid", &g);
     for (long k = 0; k < args.n; ++k) {
         int stream = g.below(16);
+        if (stream <= 13) ++g_funcJudged;
         if (stream <= 1) stepUpCase(g.unit(), "generic", &g);
         else if (stream == 2) stepUpCase(g.coin() ? g.range(0, 1e-6) : 1 - g.range(0, 1e-6), "nearend", &g);
         else if (stream <= 4) {
@@ -406,7 +533,18 @@ int main(int argc, char** argv) {
         else if (stream == 9) flinCase(g);
         else if (stream <= 11) fpolyCase(g);
         else if (stream <= 13) fsinCase(g);
+        else if (stream == 14) splineCase(g, big);
+        else if (g.below(3) == 0) bicubicCase(g);
         else splineCase(g, big);
     }
+    // guaranteed shares: every fit mode at least once, two bicubic surfaces
+    for (int mode = 0; mode < 5; ++mode) splineCase(g, big, mode);
+    bicubicCase(g); bicubicCase(g);
+    // coverage floor (X1): cases that reached the result predicates
+    vh::I("ponly").d(2).emit(); vh::O("ponly").d(2).emit(); vh::D("floor");
+    double n = (double)args.n;
+    vh::P("coverage_floor", "c41.floor.spline_judged", std::max(0.0, 5 + 0.06 * n - g_splineJudged), 0);
+    vh::P("coverage_floor", "c41.floor.bicubic_judged", std::max(0.0, 2 + 0.01 * n - g_bicubicJudged), 0);
+    vh::P("coverage_floor", "c41.floor.function_records", std::max(0.0, 0.6 * n - g_funcJudged), 0);
     return 0;
 }
